@@ -308,7 +308,7 @@ def c14(tier, seed):
         raise ToolError(f"C14 recorder did not exercise every family: {meta}")
     res.coverage = {"states": nw["states"], "transitions": nw["transitions"], "evaluations": v["events"], "distinct_nontrivial": v["events"],
                     "rule": "one evaluation = (a) one nonsymmetric cone (exponential; power with alpha in [0.08, 0.93]; generalised power with 2-3 exponents and 1-3 tail entries) at a generated "
-                            "interior pair (s, z), magnitudes 1e-2..1e2 on either side, with random directions: 13-14 identities (dual gradient / Hessian / third-order term as central "
+                            "interior pair (s, z), magnitudes 1e-6..1e6 on either side (plus points of the central path and points within 1e-2..1e-7 of the boundary of K or of K*), with random directions: 13-14 identities (dual gradient / Hessian / third-order term as central "
                             "differences of the cone's own lower-order quantity, logarithmic homogeneity, primal gradient as derivative of barrier_primal and as conjugate map, primal-dual "
                             "scaling symmetric positive definite with secant equations or the mu*H fallback, central starting point with mu = 1), each an <<error, tolerance>> pair decided "
                             "by TLC; (b) one arbitrary real point against the observer's cone definitions; (c) one integer lattice point of a power / generalised power cone with rational "
